@@ -288,7 +288,7 @@ func genC05(c *Ctx) {
 				if err != nil {
 					return "err " + errClass(err)
 				}
-				b := pk.Encode()
+				b := hold("PublicKey.Encode", pk.Encode())
 				dec, derr := crypto.DecodePublicKey(bls, b)
 				if derr != nil {
 					return "ok " + hx(b) + " does-not-decode"
